@@ -163,9 +163,9 @@ func (g *gen) stmts(d, depth int, n int) {
 
 func (g *gen) stmt(d, depth int) {
 	g.budget--
-	w := []int{14, 14, 4, 12, 8, 7, 5, 6} // print declare multi assign if for range switch
+	w := []int{14, 14, 4, 12, 8, 7, 5, 6, 3} // print declare multi assign if for range switch rangeself
 	if depth >= g.maxDepth {
-		w[4], w[5], w[6], w[7] = 0, 0, 0, 0
+		w[4], w[5], w[6], w[7], w[8] = 0, 0, 0, 0, 0
 	}
 	switch rx.Weighted(g.rt, "stmt", w...) {
 	case 0:
@@ -323,6 +323,33 @@ func (g *gen) stmt(d, depth int) {
 		g.line(d, "}")
 		g.pop()
 		g.afterBlock(d)
+	case 8:
+		// the range expression mentions the very name the loop re-declares: it must still mean the outer variable
+		// (ws is a []int and wss a [][]int declared at the top of the function; neither is otherwise touched)
+		g.id++
+		id := g.id
+		switch rx.Uniform(g.rt, 4, "selfform") {
+		case 0:
+			g.line(d, "for _, ws := range ws {")
+			g.line(d+1, "fmt.Println(\"RS%d\", ws)", id)
+		case 1:
+			g.line(d, "for ws, e%d := range ws[1:] {", id)
+			g.line(d+1, "fmt.Println(\"RS%d\", ws, e%d)", id, id)
+		case 2:
+			g.line(d, "for _, wss := range wss {")
+			g.line(d+1, "for _, wss := range wss {")
+			g.line(d+2, "fmt.Println(\"RS%d\", wss)", id)
+			g.line(d+1, "}")
+		default:
+			g.line(d, "for ws := range ws {")
+			g.line(d+1, "fmt.Println(\"RS%d\", ws)", id)
+		}
+		g.push()
+		g.stmts(d+1, depth+1, rx.Range(g.rt, "nbody", 0, 2))
+		g.pop()
+		g.line(d, "}")
+		g.line(d, "fmt.Println(\"RA%d\", len(ws), len(wss), ws[0])", id)
+		g.print(d)
 	default:
 		g.push()
 		hdr := ""
@@ -379,7 +406,7 @@ func genCase(rt *rapid.T) *Case {
 	g.stmts(1, 0, 30)
 	g.print(1)
 	body.WriteString(g.sb.String())
-	src := "package prog\n\nimport (\n\t\"fmt\"\n\t\"strings\"\n)\n\nvar x = 100\n\nfunc f(y int) int {\n" + body.String() + "\treturn x + y\n}\n\n" +
+	src := "package prog\n\nimport (\n\t\"fmt\"\n\t\"strings\"\n)\n\nvar x = 100\n\nfunc f(y int) int {\n\tws := []int{y, y + 1, y + 2}\n\twss := [][]int{{1, 2}, {3}}\n\t_, _ = ws, wss\n" + body.String() + "\treturn x + y\n}\n\n" +
 		"func Main() {\n\tfmt.Println(f(1))\n\tfmt.Println(x, strings.TrimSpace(\" main \"))\n\tfmt.Println(f(20))\n\tfmt.Println(x)\n}\n"
 	return &Case{Src: src, MaxLive: g.maxLive, ReadAfter: g.readAfterInner}
 }
